@@ -36,6 +36,8 @@ def compare(col, f, text, log, extra):
         g = common.parser().parse(out, models.File)
     except Exception as e:
         return ('reparse-fails', f'the printed document no longer parses: {type(e).__name__}: {str(e)[:200]}', wit)
+    # does the lexer cut the printed text into other pieces than the tokens the model holds? (the signature of abutting tokens)
+    wit['relex_differs'] = [t.raw_text for t in f.token_store if t.raw_text] != [t.raw_text for t in g.token_store if t.raw_text]
     d1, d2 = walker.digest(f), walker.digest(g)
     if d1 != d2:
         return ('digest-differs', 'the re-parsed document differs in structure/values from the edited model: ' + _first_diff(d1, d2), wit)
@@ -174,8 +176,9 @@ def run_case(col, r, idx):
         v, log = history(col, text, f, (col.seed, idx), lf, True)
         if v:
             mech, msg, wit = v
-            if nabut:
-                # causal classifier for the known finding: the same history on the re-spaced input is fine
+            if nabut and wit.get('relex_differs', True):
+                # causal classifier for the known finding: the printed text lexes into other tokens than the model holds (or is
+                # rejected), and the same history on the re-spaced input is fine
                 try:
                     f2 = common.parser().parse(spaced, models.File)
                     v2, log2 = history(col, spaced, f2, (col.seed, idx), lf, False)
